@@ -749,7 +749,8 @@ impl LanguageHooks for StdHooks06 {
     fn has_registers(&self) -> bool { false }
 
     fn encode_label(&self, _cur: raw::BytePos, dest_offset: raw::BytePos) -> raw::RawDwordBits {
-        assert_eq!(dest_offset % 20, 0);
+        // (an offset that is not a multiple of 20 requires an instruction whose size is not 20,
+        //  which only a user signature can produce; the writer reports that as an error)
         (dest_offset / 20) as u32
     }
     fn decode_label(&self, _cur: raw::BytePos, bits: raw::RawDwordBits) -> raw::BytePos {
